@@ -105,6 +105,10 @@ def matrix(thorough):
     cases.append(("krome-late-directives", {"files": [{"name": "late.krome", "content": late}], "network": {"filelist": "late.krome", "fileformats": "krome"}}, backs))
     two = "\n".join(["@format:idx,R,R,P,P,Tmin,Tmax,rate", "@common:user_second", "7,H2,,H,H,NONE,NONE,user_second*1d-17"]) + "\n"
     cases.append(("krome-two-files", {"files": [{"name": "late.krome", "content": late}, {"name": "two.krome", "content": two}], "network": {"filelist": ["late.krome", "two.krome"], "fileformats": ["krome", "krome"]}}, ["dense"]))
+    # @var quantities defined in terms of earlier ones, in an order that is neither alphabetical nor reverse alphabetical
+    chain = "\n".join(["@format:idx,R,R,P,P,Tmin,Tmax,rate", "@common:user_scale", "@var:user_tfac = Tgas/1.0e2", "@var:user_kfac = 1.0e-10*user_tfac", "@var:user_afac = user_kfac*user_scale + user_tfac",
+                       "@var:user_zlast = sqrt(user_afac)", "@var:user_mid = user_zlast/user_kfac", "1,H,H,H2,,NONE,NONE,user_kfac*T32", "2,H2,,H,H,NONE,NONE,user_afac*1d-7 + user_mid*1d-30"]) + "\n"
+    cases.append(("krome-chained-vars", {"files": [{"name": "chain.krome", "content": chain}], "network": {"filelist": "chain.krome", "fileformats": "krome"}}, backs))
     cases.append(("empty", {"reactions_empty_list": True, "network": {}}, backs))
     return cases
 
